@@ -39,7 +39,7 @@ def run(prop, tier, seed, replay=None):
                     s = random.Random(seed).sample(s, 600)
                 cfgs += s
             # sequential histories
-            ops = ["start", "stop", "rement", "addent"]
+            ops = ["start", "stop", "rement", "addent", "addfn"]
             for n in ([2, 3] if quick else [2, 3, 4]):
                 for seq in itertools.product(ops, repeat=n):
                     if quick and n == 3 and random.Random(str(seq) + str(seed)).random() > 0.5:
@@ -91,7 +91,7 @@ def run(prop, tier, seed, replay=None):
             raise Inconclusive("no heartbeat schedule realised")
         cov = {"states": states, "transitions": states, "traces_validated_against_impl": len(cfgs), "evaluations": lines, "distinct_nontrivial": realised,
                "rule": "every interleaving of two (thorough: sampled three) concurrent start/stop calls of the code-shaped Heartbeat model x initially running or not, forced through gates; "
-                       "sequential histories over {start, stop, remove entity, add entity} of length 2..3(4); period rule for 11 timeouts (three of them no multiple of the 0.1 s resolution of the announced value); distinct = executions realised on the code",
+                       "sequential histories over {start, stop, remove entity, add entity, add the heartbeat function again} of length 2..3(4); period rule for 11 timeouts (three of them no multiple of the 0.1 s resolution of the announced value); distinct = executions realised on the code",
                "samples": [{k: sample[k] for k in ("mode", "kind", "init", "sched", "op", "pre", "live", "running", "rate")}],
                "schedules_unrealisable": lines - realised, "attack_schedules_realised": unsafe_r, "bad": nbad,
                "checker_cmd": "tlc Heartbeat.tla (Atomic: INVARIANT Safe; split: enumeration); tlc HeartbeatTrace.tla"}
